@@ -215,8 +215,8 @@ def mode_job(job):
     return res
 
 
-SCENARIOS_QUICK = ["export2", "pttempo3", "ptcompute3"]
-SCENARIOS_THOROUGH = ["export2", "export3", "export1nocaps", "export2T", "pttempo3", "pttempo4D", "ptcompute3"]
+SCENARIOS_QUICK = ["export2", "pttempo3", "ptcompute3", "stream2"]
+SCENARIOS_THOROUGH = ["export2", "export3", "export1nocaps", "export2T", "pttempo3", "pttempo4D", "ptcompute3", "stream2", "stream3"]
 
 
 def run(ctx):
